@@ -15,6 +15,10 @@ class VariableBoundMinPropagator(VariableBoundPropagator):
         raise NotImplementedError("min")
             
     def propagate(self):
+        if len(self.target.domain.range_l) == 0:
+            # The domain is already empty (the constraints are
+            # unsatisfiable). There is nothing left to trim
+            return False
         # Obtain the max value from the
         min_v = self.min()
         
